@@ -171,6 +171,7 @@ class Cache:
             res.derived_from = self.derived_from | right_cache.derived_from
             res.limit = 0
             res.group_by = set()
+            res.is_filtered = self.is_filtered or right_cache.is_filtered
 
         elif isinstance(node, verbs.Union):
             assert right_cache is not None
